@@ -550,7 +550,7 @@ fn main() {
         frontier = next;
     }
     if outcome_classes.len() < 8 {
-        machinery(&format!("vacuous exploration: outcome classes {outcome_classes:?}"));
+        vacuous(&format!("vacuous exploration: outcome classes {outcome_classes:?}"));
     }
     let mut cov = J::obj()
         .set("states", seen.len())
